@@ -334,3 +334,21 @@ def ref_simulate(ms, theta, times, outputs, admin=None, events=None):
 def structure(ms):
     return [len(ms['comps']), len(ms['gstates']), len(ms['consts']), len(ms['derived']),
             [[f['src'], f['dst']] for f in ms['flows']], [len(i['terms']) for i in ms['inter']]]
+
+
+def max_out_rate(ms, theta, admin=None):
+    """Largest total first-order loss rate of any state (incl. depot) for the parameter vector
+    theta (published order): bounds how fast solutions can decay."""
+    names = published_parameters(ms, admin)
+    val = dict(zip(names, [float(np.real(v)) for v in theta]))
+    rate = {k['id']: val['global.%s' % k['id']] for k in ms['consts']}
+    for d in ms['derived']:
+        rate[d['id']] = rate[d['a']] * rate[d['b']]
+    n = len(state_qnames(ms))
+    loss = [0.0] * n
+    for f in ms['flows']:
+        loss[f['src']] += abs(rate[f['rate']])
+    m = max(loss) if loss else 0.0
+    if admin is not None and not admin['direct']:
+        m = max(m, abs(val['dose.absorption_rate']))
+    return m
